@@ -562,6 +562,7 @@ def run(ctx, rep, tier="quick"):
     # the status a finished trial is counted under (completed vs paused) - shared with C01-S5
     from . import c01 as _c01
     _c01.s5b(ctx, rep, clause="S6")
+    _c01.s5c(ctx, rep, clause="S6")
     s9(ctx, rep)
     from . import c01
     c01.s10(ctx, rep, clause="S8")
